@@ -51,7 +51,7 @@ fn check_layout(out: &[u8], z: u32) {
 }
 
 proof! {
-    //@ props=C11,C15 tier=quick
+    //@ props=C11,C15,C01,C04 tier=quick
     fn c11_write_u32_vec() unwind(7) {
         let v = sym::u32_();
         let mut out: Vec<u8> = Vec::new();
@@ -62,7 +62,7 @@ proof! {
 }
 
 proof! {
-    //@ props=C11,C15 tier=quick
+    //@ props=C11,C15,C01,C04 tier=quick
     fn c11_write_i32_vec() unwind(7) {
         let v = sym::i32_();
         let mut out: Vec<u8> = Vec::new();
@@ -208,7 +208,7 @@ proof! {
 }
 
 proof! {
-    //@ props=C11 tier=quick
+    //@ props=C11,C01 tier=quick
     fn c11_roundtrip_u32_vec_slice() unwind(7) {
         let v = sym::u32_();
         let mut out: Vec<u8> = Vec::new();
